@@ -91,6 +91,18 @@ class Monitor(object):
                                                                       'notification', 'route_refresh')]
             if len(reports) > nframes:
                 self.fail('C10', 'more reports to the application than messages received', 'multi-report')
+            # a message that could not be decoded must not change how the following ones are handled: a KEEPALIVE
+            # that arrives aligned on a frame boundary of an open session is always reported
+            sofar = self.streams[ev['c']]
+            b = bytes.fromhex(ev['hex'])
+            before = sofar[:len(sofar) - len(b)]
+            fb = frames_of(before)
+            if (b == MARK + b'\x00\x13\x04' and sum(ln for _, ln, _ in fb) == len(before)
+                    and prev['state'] in ('OPENCONFIRM', 'ESTABLISHED') and ev['c'] == prev['proto']
+                    and prev['conns'][ev['c']] == 'connected'):
+                if not any(o[0] == 'handler' and o[1] == 'keepalive' for o in outs):
+                    self.fail('C10', 'a KEEPALIVE following earlier (possibly malformed) messages was not processed',
+                              'stuck-after-bad-message')
             if prev['state'] == 'ESTABLISHED':
                 fr = frames_of(self.streams[ev['c']])
                 new = frames_of(bytes.fromhex(ev['hex']))
@@ -388,6 +400,10 @@ class Monitor(object):
                     bad('a NOTIFICATION must end the session without an answer', cls)
             elif c0 == 'rr':
                 expect_unchanged('route-refresh')
+        if ns == 'IDLE' and insess and not self.stopped and k in ('lost', 'chunk', 'fire'):
+            # "-> Idle" always includes the damped automatic restart being pending (Appendix A)
+            if not obs['timers'].get('idlehold') and not any(p == 'closing' for p in obs['conns']):
+                bad('the session ended in Idle without a restart pending', 'no-restart')
         if ns == 'ESTABLISHED' and ps != 'ESTABLISHED':
             # entered only by a KEEPALIVE on the current connection after a valid OPEN on it
             if not (k == 'chunk' and ev['c'] == obs['proto']):
